@@ -152,6 +152,12 @@ def run(res, tier, seed, shard, nshards):
         for seg in ("per-frame", "burst"):
             for tls in (False, True):
                 jobs.append((rich, seg, tls, None, name))
+        # every exception type x every kind of callable
+        for ei in range(6):
+            for ck in range(4):
+                if quick and (ei + ck + len(name)) % 2:
+                    continue
+                jobs.append((rich, "per-frame" if (ei + ck) % 2 else "burst", bool(ck % 2), None, (name, ei, ck)))
     # through an HTTP CONNECT proxy, with a short http_proxy_timeout and gaps between frames/fragments longer than it
     for hi, h in enumerate([h for n in range(1, 3) for h in itertools.product(KINDS, repeat=n)]):
         if quick and hi % 3:
@@ -196,10 +202,22 @@ def run(res, tier, seed, shard, nshards):
 
 
 def one(res, W, rng, hist, seg, tls, enabled, raising_name, via_proxy=False):
+    forced = None
+    if isinstance(raising_name, tuple):
+        raising_name, fe, fk = raising_name
+        forced = (fe, fk)
     evs = build_history(hist, rng)
     script, times, end = make_script(evs, seg)
     plan = [dict(outcome="ok", script=script)]
-    raising = {raising_name: (lambda: ValueError("user callback failed"))} if raising_name else {}
+    # what the failing callback raises: an ordinary error, or one of the exception types the library itself uses for its own purposes
+    # (a handler that forwards to another, closed, WebSocket raises exactly those)
+    EXC = [lambda: ValueError("user callback failed"), lambda: W.WebSocketConnectionClosedException("user callback failed"),
+           lambda: W.WebSocketTimeoutException("user callback failed"), lambda: OSError(32, "user callback failed"), lambda: KeyError("user callback failed"),
+           lambda: W.WebSocketProtocolException("user callback failed")]
+    hs0 = len(hist) + sum(map(len, hist)) + len(seg) + int(tls)
+    raising = {raising_name: EXC[(forced[0] if forced else hs0) % len(EXC)]} if raising_name else {}
+    callable_kind = ["function", "partial", "instance", "bound-method"][(forced[1] if forced else hs0) % 4] if (raising_name or hs0 % 5 == 0) else "function"
+    res.count("callables:" + callable_kind)
     out = {}
     # how the application installs its callbacks (constructor, attributes before the run, attributes from inside on_open) and whether a
     # keepalive is configured (interval far beyond the scenario: no ping is ever due) make no difference to what is delivered
@@ -212,7 +230,7 @@ def one(res, W, rng, hist, seg, tls, enabled, raising_name, via_proxy=False):
 
     def scen():
         H.reset_process_state()
-        run = appsim.AppRun(plan, url="wss://app.test/" if tls else "ws://app.test/", callbacks=enabled, raising=raising, via_proxy=via_proxy, assign=assign)
+        run = appsim.AppRun(plan, url="wss://app.test/" if tls else "ws://app.test/", callbacks=enabled, raising=raising, via_proxy=via_proxy, assign=assign, callable_kind=callable_kind)
         out["run"] = run
         if via_proxy:
             run.run_forever(http_proxy_host="proxy.test", http_proxy_port=3128, http_proxy_timeout=0.4)
